@@ -65,11 +65,11 @@ Definition next_same (c : name) (rest : list (name * V)) : option V :=
   | None => None
   end.
 
-Lemma serial_loop_rule : forall rest c len v, lookup c sizes = Some len ->
-  serial_loop (chk_of vclass) sort_all sizes c len v (ok_lines rest)
-  = class_verdict (first_some (vclass len v (next_same c rest) :: classes vclass sort_all sizes (Some (c, v)) rest)).
+Lemma serial_loop_rule : forall rest seen c len v, lookup c sizes = Some len ->
+  serial_loop (chk_of vclass) sort_all sizes seen c len v (ok_lines rest)
+  = class_verdict (first_some (vclass len v (next_same c rest) :: classes vclass sort_all sizes seen (Some (c, v)) rest)).
 Proof.
-  induction rest as [|[c' v'] rest IH]; intros c len v Hl.
+  induction rest as [|[c' v'] rest IH]; intros seen c len v Hl.
   - cbn [ok_lines map serial_loop classes first_some next_same hd_error]. unfold chk_of.
     destruct (vclass len v None); reflexivity.
   - cbn [ok_lines map fst snd serial_loop]. fold (ok_lines rest).
@@ -78,14 +78,15 @@ Proof.
     + apply name_eqb_eq in E. subst c'.
       unfold chk_of at 1. cbn [first_some].
       destruct (vclass len v (Some v')) as [k|]; [reflexivity|]. cbn [class_verdict rbind].
-      rewrite (IH c len v' Hl). cbn [classes]. unfold item_class at 1. cbn [fst snd].
+      rewrite (IH seen c len v' Hl). cbn [classes]. unfold item_class at 1, step_seen, new_run. cbn [fst snd].
       rewrite name_eqb_refl. cbn [negb andb]. rewrite Hl. reflexivity.
     + unfold chk_of at 1. cbn [first_some].
       destruct (vclass len v None) as [k|]; [reflexivity|]. cbn [class_verdict rbind].
-      cbn [classes]. unfold item_class at 1. cbn [fst snd]. rewrite E. cbn [negb andb].
+      cbn [classes]. unfold item_class at 1, step_seen, new_run. cbn [fst snd]. rewrite E. cbn [negb andb].
       destruct (sort_all && negb (name_ltb c c')) eqn:Eo; cbn [first_some]; [reflexivity|].
       destruct (lookup c' sizes) as [len'|] eqn:El; cbn [first_some]; [|reflexivity].
-      rewrite (IH c' len' v' El). reflexivity.
+      destruct (seen_b c' seen); cbn [first_some]; [reflexivity|].
+      rewrite (IH (seen ++ [c']) c' len' v' El). reflexivity.
 Qed.
 
 Theorem serial_rule (items : list (name * V)) :
@@ -93,9 +94,9 @@ Theorem serial_rule (items : list (name * V)) :
 Proof.
   destruct items as [|[c v] rest]; [reflexivity|].
   cbn [ok_lines map fst snd serial]. fold (ok_lines rest). unfold rule_verdict.
-  cbn [classes]. unfold item_class at 1. cbn [fst snd].
+  cbn [classes]. unfold item_class at 1, step_seen, new_run. cbn [fst snd andb seen_b existsb app].
   destruct (lookup c sizes) as [len|] eqn:El; cbn [first_some]; [|reflexivity].
-  rewrite (serial_loop_rule rest c len v El). reflexivity.
+  rewrite (serial_loop_rule rest [c] c len v El). reflexivity.
 Qed.
 
 (* position independence: an offending item anywhere in the stream makes the verdict an error *)
@@ -110,27 +111,31 @@ Proof.
   unfold ctx_prev, last_opt. destruct pre as [|z pre]; [reflexivity|].
   rewrite (last_default z pre y z). destruct pre; reflexivity.
 Qed.
-Lemma classes_split x post : forall pre prev, exists front,
-  classes vclass sort_all sizes prev (pre ++ x :: post)
-  = front ++ item_class vclass sort_all sizes (ctx_prev prev pre) x (hd_error post)
-             :: classes vclass sort_all sizes (Some x) post.
+(* the chromosomes begun before the item that follows [pre] *)
+Fixpoint seen_at (seen : list name) (prev : option (name * V)) (pre : list (name * V)) : list name :=
+  match pre with [] => seen | y :: r => seen_at (step_seen seen prev y) (Some y) r end.
+Lemma classes_split x post : forall pre seen prev, exists front,
+  classes vclass sort_all sizes seen prev (pre ++ x :: post)
+  = front ++ item_class vclass sort_all sizes (seen_at seen prev pre) (ctx_prev prev pre) x (hd_error post)
+             :: classes vclass sort_all sizes (step_seen (seen_at seen prev pre) (ctx_prev prev pre) x) (Some x) post.
 Proof.
-  induction pre as [|y pre IH]; intros prev.
+  induction pre as [|y pre IH]; intros seen prev.
   - exists []. reflexivity.
-  - destruct (IH (Some y)) as [front Hf]. cbn [app classes]. rewrite Hf.
+  - destruct (IH (step_seen seen prev y) (Some y)) as [front Hf]. cbn [app classes seen_at]. rewrite Hf.
     eexists (_ :: front). rewrite ctx_prev_cons. reflexivity.
 Qed.
 Theorem rule_position_independent pre x post k :
-  item_class vclass sort_all sizes (last_opt pre) x (hd_error post) = Some k ->
+  item_class vclass sort_all sizes (seen_at [] None pre) (last_opt pre) x (hd_error post) = Some k ->
   exists k', rule_verdict vclass sort_all sizes (pre ++ x :: post) = Err k'.
 Proof.
   intros Hc. unfold rule_verdict.
   destruct (pre ++ x :: post) eqn:E; [destruct pre; discriminate|]. rewrite <- E.
-  destruct (classes_split x post pre None) as [front Hf]. rewrite Hf.
-  unfold ctx_prev. assert (Hp : match last_opt pre with Some p => Some p | None => None end = last_opt pre)
+  destruct (classes_split x post pre [] None) as [front Hf]. rewrite Hf.
+  unfold ctx_prev at 1. assert (Hp : match last_opt pre with Some p => Some p | None => None end = last_opt pre)
     by (destruct (last_opt pre); reflexivity).
   rewrite Hp, Hc.
-  destruct (first_some_app_some front (Some k :: classes vclass sort_all sizes (Some x) post) k eq_refl) as [k' Hk'].
+  destruct (first_some_app_some front (Some k :: classes vclass sort_all sizes
+              (step_seen (seen_at [] None pre) (ctx_prev None pre) x) (Some x) post) k eq_refl) as [k' Hk'].
   rewrite Hk'. eauto.
 Qed.
 End Rules.
@@ -146,63 +151,76 @@ Hypothesis vclass_none : forall len v n,
 Variable sort_all : bool.
 Variable sizes : list (name * N).
 
-Definition item_ok (prev : option (name * V)) (cur : name * V) (next : option (name * V)) : Prop :=
+Lemma seen_b_in c seen : seen_b c seen = true <-> In c seen.
+Proof.
+  unfold seen_b. rewrite existsb_exists. split.
+  - intros [x [Hx He]]. apply name_eqb_eq in He. now subst.
+  - intros H. exists c. split; [exact H|apply name_eqb_refl].
+Qed.
+
+Definition item_ok (seen : list name) (prev : option (name * V)) (cur : name * V) (next : option (name * V)) : Prop :=
   (forall p, prev = Some p -> fst p <> fst cur -> sort_all = true -> name_cmp (fst p) (fst cur) = Lt) /\
+  (new_run prev cur = true -> ~ In (fst cur) seen) /\
   exists len, lookup (fst cur) sizes = Some len /\ good_val len (snd cur) /\
               (forall n, next = Some n -> fst n = fst cur -> good_pair (snd cur) (snd n)).
-Fixpoint stream_ok (prev : option (name * V)) (l : list (name * V)) : Prop :=
+Fixpoint stream_ok (seen : list name) (prev : option (name * V)) (l : list (name * V)) : Prop :=
   match l with
   | [] => True
-  | x :: r => item_ok prev x (hd_error r) /\ stream_ok (Some x) r
+  | x :: r => item_ok seen prev x (hd_error r) /\ stream_ok (step_seen seen prev x) (Some x) r
   end.
 
-Lemma item_class_none prev cur next :
-  item_class vclass sort_all sizes prev cur next = None <-> item_ok prev cur next.
+Lemma item_class_none seen prev cur next :
+  item_class vclass sort_all sizes seen prev cur next = None <-> item_ok seen prev cur next.
 Proof.
   unfold item_class, item_ok. destruct cur as [c v]. cbn [fst snd].
   split.
-  - intros H. destruct prev as [[p pv]|]; cbn [fst] in *.
-    + destruct (negb (name_eqb c p) && sort_all && negb (name_ltb p c)) eqn:Eo; [discriminate|].
-      destruct (lookup c sizes) as [len|]; [|discriminate].
-      apply vclass_none in H as [Hg Hp]. split.
-      * intros q Hq Hne Hs. inversion Hq; subst q. cbn [fst] in *.
-        destruct (name_eqb c p) eqn:Ecp; [apply name_eqb_eq in Ecp; congruence|].
-        rewrite Hs in Eo. cbn [negb andb] in Eo. unfold name_ltb in Eo.
-        destruct (name_cmp p c); [discriminate|reflexivity|discriminate].
-      * exists len. split; [reflexivity|]. split; [exact Hg|].
-        intros n Hn Hc. apply Hp. subst next. rewrite Hc, name_eqb_refl. reflexivity.
-    + destruct (lookup c sizes) as [len|]; [|discriminate].
-      apply vclass_none in H as [Hg Hp]. split; [intros q Hq; discriminate|].
-      exists len. split; [reflexivity|]. split; [exact Hg|].
+  - intros H.
+    assert (Hord : forall p, prev = Some p -> fst p <> c -> sort_all = true -> name_cmp (fst p) c = Lt).
+    { intros [p pv] Hq Hne Hs. subst prev. unfold new_run in H. cbn [fst] in *.
+      destruct (name_eqb c p) eqn:Ecp; [apply name_eqb_eq in Ecp; congruence|].
+      rewrite Hs in H. cbn [negb andb] in H. unfold name_ltb in H.
+      destruct (name_cmp p c); [discriminate|reflexivity|discriminate]. }
+    destruct (match prev with None => false | Some p => new_run prev (c, v) && sort_all && negb (name_ltb (fst p) c) end);
+      [discriminate|].
+    destruct (lookup c sizes) as [len|]; [|discriminate].
+    destruct (new_run prev (c, v) && seen_b c seen) eqn:En; [discriminate|].
+    apply vclass_none in H as [Hg Hp]. split; [exact Hord|]. split.
+    + intros Hn Hin. rewrite Hn in En. cbn [andb] in En. apply seen_b_in in Hin. congruence.
+    + exists len. split; [reflexivity|]. split; [exact Hg|].
       intros n Hn Hc. apply Hp. subst next. rewrite Hc, name_eqb_refl. reflexivity.
-  - intros [Ho [len [Hl [Hg Hp]]]]. rewrite Hl.
+  - intros [Ho [Hs [len [Hl [Hg Hp]]]]]. rewrite Hl.
     assert (Hv : vclass len v match next with
                               | Some n => if name_eqb (fst n) c then Some (snd n) else None
                               | None => None end = None).
     { apply vclass_none. split; [exact Hg|]. intros w Hw. destruct next as [n|]; [|discriminate].
       destruct (name_eqb (fst n) c) eqn:E; [|discriminate]. inversion Hw; subst w.
       apply (Hp n eq_refl). now apply name_eqb_eq. }
-    destruct prev as [[p pv]|]; cbn [fst] in *; [|exact Hv].
+    assert (Hsp : new_run prev (c, v) && seen_b c seen = false).
+    { destruct (new_run prev (c, v)) eqn:En; [|reflexivity]. cbn [andb].
+      destruct (seen_b c seen) eqn:Es; [|reflexivity]. apply seen_b_in in Es. exfalso. exact (Hs eq_refl Es). }
+    rewrite Hsp.
+    destruct prev as [[p pv]|]; [|exact Hv].
+    unfold new_run. cbn [fst].
     destruct (name_eqb c p) eqn:Ecp; cbn [negb andb]; [exact Hv|].
     destruct sort_all eqn:Es; cbn [andb]; [|exact Hv].
     assert (Hne : p <> c) by (intros E; subst; rewrite name_eqb_refl in Ecp; discriminate).
     specialize (Ho (p, pv) eq_refl Hne eq_refl). cbn [fst] in Ho. unfold name_ltb. rewrite Ho. cbn [negb]. exact Hv.
 Qed.
 
-Lemma classes_none : forall l prev,
-  first_some (classes vclass sort_all sizes prev l) = None <-> stream_ok prev l.
+Lemma classes_none : forall l seen prev,
+  first_some (classes vclass sort_all sizes seen prev l) = None <-> stream_ok seen prev l.
 Proof.
-  induction l as [|x r IH]; intros prev; cbn [classes first_some stream_ok]; [tauto|].
-  destruct (item_class vclass sort_all sizes prev x (hd_error r)) as [k|] eqn:E.
+  induction l as [|x r IH]; intros seen prev; cbn [classes first_some stream_ok]; [tauto|].
+  destruct (item_class vclass sort_all sizes seen prev x (hd_error r)) as [k|] eqn:E.
   - split; [discriminate|]. intros [Hi _]. apply item_class_none in Hi. congruence.
   - rewrite IH. apply item_class_none in E. tauto.
 Qed.
 
 Theorem rule_accept_iff l :
-  rule_verdict vclass sort_all sizes l = Ok tt <-> l <> [] /\ stream_ok None l.
+  rule_verdict vclass sort_all sizes l = Ok tt <-> l <> [] /\ stream_ok [] None l.
 Proof.
   unfold rule_verdict. destruct l as [|x r]; [split; [discriminate|intros [H _]; congruence]|].
-  destruct (first_some (classes vclass sort_all sizes None (x :: r))) as [k|] eqn:E.
+  destruct (first_some (classes vclass sort_all sizes [] None (x :: r))) as [k|] eqn:E.
   - split; [discriminate|]. intros [_ H]. apply classes_none in H. congruence.
   - split; [|reflexivity]. intros _. split; [discriminate|]. now apply classes_none.
 Qed.
@@ -253,15 +271,15 @@ Variable chk1 chk2 : N -> V -> option V -> res unit.
 Hypothesis chk_ext : forall len v n, chk1 len v n = chk2 len v n.
 Variable sort_all : bool.
 Variable sizes : list (name * N).
-Lemma serial_loop_ext : forall rest c len v,
-  serial_loop chk1 sort_all sizes c len v rest = serial_loop chk2 sort_all sizes c len v rest.
+Lemma serial_loop_ext : forall rest seen c len v,
+  serial_loop chk1 sort_all sizes seen c len v rest = serial_loop chk2 sort_all sizes seen c len v rest.
 Proof.
-  induction rest as [|[c' [e|v']] rest IH]; intros c len v; cbn [serial_loop]; [apply chk_ext|reflexivity|].
+  induction rest as [|[c' [e|v']] rest IH]; intros seen c len v; cbn [serial_loop]; [apply chk_ext|reflexivity|].
   rewrite !chk_ext. destruct (name_eqb c' c).
   - destruct (chk2 len v (Some v')); cbn [rbind]; try reflexivity. apply IH.
   - destruct (chk2 len v None); cbn [rbind]; try reflexivity.
     destruct (sort_all && negb (name_ltb c c')); [reflexivity|].
-    destruct (lookup c' sizes); [apply IH|reflexivity].
+    destruct (lookup c' sizes); [|reflexivity]. destruct (seen_b c' seen); [reflexivity|apply IH].
 Qed.
 Lemma serial_ext l : serial chk1 sort_all sizes l = serial chk2 sort_all sizes l.
 Proof.
@@ -292,21 +310,22 @@ Variable sizes : list (name * N).
 (* the serial source never panics or hangs, and it accepts only streams whose lines all parsed *)
 Lemma chk_of_cases len v n : chk_of vclass len v n = Ok tt \/ exists k, chk_of vclass len v n = Err k.
 Proof. unfold chk_of. destruct (vclass len v n); cbn [class_verdict]; eauto. Qed.
-Lemma serial_loop_ok_or_err : forall rest c len v,
-  (serial_loop (chk_of vclass) sort_all sizes c len v rest = Ok tt /\ exists items, all_ok rest = Some items)
-  \/ exists k, serial_loop (chk_of vclass) sort_all sizes c len v rest = Err k.
+Lemma serial_loop_ok_or_err : forall rest seen c len v,
+  (serial_loop (chk_of vclass) sort_all sizes seen c len v rest = Ok tt /\ exists items, all_ok rest = Some items)
+  \/ exists k, serial_loop (chk_of vclass) sort_all sizes seen c len v rest = Err k.
 Proof.
-  induction rest as [|[c' [e|v']] rest IH]; intros c len v; cbn [serial_loop all_ok].
+  induction rest as [|[c' [e|v']] rest IH]; intros seen c len v; cbn [serial_loop all_ok].
   - destruct (chk_of_cases len v None) as [Hc|[k Hc]]; rewrite Hc; [left; eauto|right; eauto].
   - right; eauto.
   - destruct (name_eqb c' c).
     + destruct (chk_of_cases len v (Some v')) as [Hc|[k Hc]]; rewrite Hc; cbn [rbind]; [|right; eauto].
-      destruct (IH c len v') as [[H [items Hi]]|[k H]]; [left|right; eauto].
+      destruct (IH seen c len v') as [[H [items Hi]]|[k H]]; [left|right; eauto].
       rewrite Hi. split; eauto.
     + destruct (chk_of_cases len v None) as [Hc|[k Hc]]; rewrite Hc; cbn [rbind]; [|right; eauto].
       destruct (sort_all && negb (name_ltb c c')); [right; eauto|].
       destruct (lookup c' sizes) as [len'|]; [|right; eauto].
-      destruct (IH c' len' v') as [[H [items Hi]]|[k H]]; [left|right; eauto].
+      destruct (seen_b c' seen); [right; eauto|].
+      destruct (IH (seen ++ [c']) c' len' v') as [[H [items Hi]]|[k H]]; [left|right; eauto].
       rewrite Hi. split; eauto.
 Qed.
 Theorem serial_ok_or_err l :
@@ -315,7 +334,7 @@ Theorem serial_ok_or_err l :
 Proof.
   destruct l as [|[c [e|v]] rest]; cbn [serial all_ok]; [right; eauto|right; eauto|].
   destruct (lookup c sizes) as [len|]; [|right; eauto].
-  destruct (serial_loop_ok_or_err rest c len v) as [[H [items Hi]]|[k H]]; [left|right; eauto].
+  destruct (serial_loop_ok_or_err rest [c] c len v) as [[H [items Hi]]|[k H]]; [left|right; eauto].
   rewrite Hi. split; eauto.
 Qed.
 (* a malformed line anywhere: refused *)
@@ -365,7 +384,8 @@ Proof.
   destruct (runs' r) as [|[c2 vs] rs]; [reflexivity|]. destruct (name_eqb c2 c); reflexivity.
 Qed.
 
-Fixpoint runs_verdict (o : opts) (sizes : list (name * N)) (prev : option name) (rs : list (name * list value)) : res unit :=
+Fixpoint runs_verdict (o : opts) (sizes : list (name * N)) (prev : option name) (seen : list name)
+         (rs : list (name * list value)) : res unit :=
   match rs with
   | [] => Ok tt
   | (c, vals) :: rest =>
@@ -375,11 +395,18 @@ Fixpoint runs_verdict (o : opts) (sizes : list (name * N)) (prev : option name) 
       if negb order_ok then Err E_CHROM_ORDER else
       match lookup c sizes with
       | None => Err E_UNKNOWN_CHROM
-      | Some len => do _ <- check_chrom len vals; runs_verdict o sizes (Some c) rest
+      | Some len => if seen_b c seen then Err E_SPLIT else
+                    do _ <- check_chrom len vals; runs_verdict o sizes (Some c) (seen ++ [c]) rest
       end
   end.
+Lemma lookup_seen {X} c (ids : list (name * X)) :
+  match lookup c ids with Some _ => true | None => false end = seen_b c (map fst ids).
+Proof.
+  induction ids as [|[k x] r IH]; [reflexivity|]. cbn [lookup map fst]. unfold seen_b. cbn [existsb].
+  destruct (name_eqb c k); [reflexivity|exact IH].
+Qed.
 Lemma process_runs_verdict o sizes : forall rs prev ids,
-  verdict (process_runs o sizes prev ids rs) = runs_verdict o sizes prev rs.
+  verdict (process_runs o sizes prev ids rs) = runs_verdict o sizes prev (map fst ids) rs.
 Proof.
   induction rs as [|[c vals] rest IH]; intros prev ids; [reflexivity|].
   cbn [process_runs runs_verdict].
@@ -387,18 +414,20 @@ Proof.
                  | Some p => if o_sort_all o then match name_cmp p c with Lt => true | _ => false end else true
                  | None => true end); [reflexivity|].
   destruct (lookup c sizes) as [len|]; [|reflexivity].
-  destruct (get_id ids c) as [ids' id].
+  rewrite <- (lookup_seen c ids). unfold get_id.
+  destruct (lookup c ids) as [id|] eqn:Eid; [reflexivity|].
   destruct (check_chrom len vals) as [[]| | |]; cbn [rbind verdict]; try reflexivity.
-  rewrite <- (IH (Some c) ids').
-  destruct (process_runs o sizes (Some c) ids' rest) as [[ids'' outs]| | |]; reflexivity.
+  specialize (IH (Some c) (ids ++ [(c, Nlen ids)])). rewrite map_app in IH. cbn [map fst] in IH.
+  rewrite <- IH.
+  destruct (process_runs o sizes (Some c) (ids ++ [(c, Nlen ids)]) rest) as [[ids'' outs]| | |]; reflexivity.
 Qed.
 
-Lemma serial_loop_runs o sizes : forall l c len v vs rs,
+Lemma serial_loop_runs o sizes : forall l seen c len v vs rs,
   runs' (cons (A:=item) (c, v) l) = (c, v :: vs) :: rs ->
-  serial_loop check_val (o_sort_all o) sizes c len v (ok_lines l)
-  = (do _ <- check_chrom len (v :: vs); runs_verdict o sizes (Some c) rs).
+  serial_loop check_val (o_sort_all o) sizes seen c len v (ok_lines l)
+  = (do _ <- check_chrom len (v :: vs); runs_verdict o sizes (Some c) seen rs).
 Proof.
-  induction l as [|[c' v'] l IH]; intros c len v vs rs Hr.
+  induction l as [|[c' v'] l IH]; intros seen c len v vs rs Hr.
   - cbn [runs'] in Hr. inversion Hr; subst. cbn [ok_lines map serial_loop check_chrom hd_error runs_verdict].
     now rewrite !rbind_unit.
   - destruct (runs'_head c' v' l) as [vs' [rs' Hh]].
@@ -409,7 +438,7 @@ Proof.
     rewrite Hh in Hr. cbn [ok_lines map fst snd serial_loop]. fold (ok_lines l).
     destruct (name_eqb c' c) eqn:E.
     + apply name_eqb_eq in E. subst c'. inversion Hr; subst vs rs.
-      rewrite (IH c len v' vs' rs' Hh).
+      rewrite (IH seen c len v' vs' rs' Hh).
       change (check_chrom len (v :: v' :: vs')) with (do _ <- check_val len v (Some v'); check_chrom len (v' :: vs')).
       rewrite rbind_assoc. reflexivity.
     + inversion Hr; subst vs rs.
@@ -421,7 +450,8 @@ Proof.
       { unfold name_ltb. destruct (o_sort_all o); [|reflexivity]. destruct (name_cmp c c'); reflexivity. }
       rewrite Ho. destruct (o_sort_all o && negb (name_ltb c c')); [reflexivity|].
       destruct (lookup c' sizes) as [len'|]; [|reflexivity].
-      apply (IH c' len' v' vs' rs' Hh).
+      destruct (seen_b c' seen); [reflexivity|].
+      apply (IH (seen ++ [c']) c' len' v' vs' rs' Hh).
 Qed.
 
 Lemma mapM_ok {X Y} (f : X -> res Y) l : (forall x, In x l -> exists y, f x = Ok y) -> exists ys, mapM f l = Ok ys.
@@ -451,8 +481,8 @@ Proof.
   assert (Hv : verdict (process_runs o sizes None [] (runs (cons (A:=item) (c, v) rest)))
                = match lookup c sizes with
                  | None => Err E_UNKNOWN_CHROM
-                 | Some len => serial_loop check_val (o_sort_all o) sizes c len v (ok_lines rest) end).
-  { rewrite process_runs_verdict, runs_eq, Hh. cbn [runs_verdict negb].
+                 | Some len => serial_loop check_val (o_sort_all o) sizes [c] c len v (ok_lines rest) end).
+  { rewrite process_runs_verdict, runs_eq, Hh. cbn [runs_verdict negb map seen_b existsb app].
     destruct (lookup c sizes) as [len|]; [|reflexivity]. symmetry. now apply serial_loop_runs. }
   destruct (process_runs o sizes None [] (runs (cons (A:=item) (c, v) rest))) as [[ids outs]| | |]; cbn [rbind verdict] in *; try exact Hv.
   destruct (concat_res_ok (map (fun c0 => data_sections (o_ips o) (co_id c0) (co_vals c0)) outs)) as [data Hd].
